@@ -433,6 +433,72 @@ func generate() {
 		walksFor(sizes, false)
 	}
 
+	// ---- E. posting histories: the cached total after a post, whatever it was before ---------------
+	// idx (cached = len) ; the cache is set cold / exact / lagging / overcounting ; optionally the board is
+	// listed (total cached) ; k records reach .DIR behind the cache's back ; the real NewPost ; then the
+	// newest article is looked up by name and the board is paged both ways with the cached total.
+	postBases := [][]sym{{}, {{0, 0}}, {{0, 0}, {0, 0}}, {{0, 0}, {1, 1}, {0, 2}}, {{0, 2}}, {{0, 0}, {2, 0}, {0, 0}, {1, 1}}}
+	if thorough {
+		for L := 1; L <= 3; L++ {
+			enumShapes(L, true, func(sh []sym) { postBases = append(postBases, append([]sym{}, sh...)) })
+		}
+	}
+	for bi, base := range postBases {
+		if stop() {
+			break
+		}
+		L := len(base)
+		cacheds := []int{L, 0, L + 2}
+		for c := 1; c < L; c++ {
+			cacheds = append(cacheds, c)
+		}
+		for _, c := range cacheds {
+			for k := 0; k <= 2; k++ {
+				if !thorough && bi >= 3 && k == 2 {
+					continue
+				}
+				for _, listFirst := range []bool{false, true} {
+					if listFirst && c != 0 {
+						continue
+					}
+					do(idxLine(buildIndex(bigBase+10, base)), "", true)
+					do(fmt.Sprintf("setcached %d", c), "", true)
+					if listFirst {
+						do("list", "", true)
+					}
+					for j := 0; j < k; j++ {
+						nm := liveName(int64(bigBase+5000+j), 0xC00+j)
+						if j == 1 && bi%2 == 1 {
+							nm = badName(4) // an unparsable orphan
+						}
+						do("append "+hx.Hex(nm), "", true)
+					}
+					cl := fmt.Sprintf("orphans%d", k)
+					do("post", cl, true)
+					do("findlast asc", cl, true)
+					do("findlast desc", cl, true)
+					n := len(cur)
+					for _, d := range []string{"asc", "desc"} {
+						for _, sz := range []int{1, 2, n + 1} {
+							do(fmt.Sprintf("pwalk %d %s cur", sz, d), "after-post", true)
+							do(fmt.Sprintf("walk %d %s cur", sz, d), "after-post", true)
+						}
+					}
+					do("post", cl, true)
+					do("findlast desc", cl, true)
+					do("walk 1 asc cur", "after-post", true)
+					do("pwalk 2 desc cur", "after-post", true)
+					// a restart (every cached total zeroed), then the next post: the posted board and the log
+					// boards the post is copied to are re-counted, not bumped from 0
+					do("reload", "", true)
+					do("post", cl+":after-reload", true)
+					do("findlast desc", cl, true)
+					do("walk 2 desc cur", "after-post", true)
+				}
+			}
+		}
+	}
+
 	// ---- D. malformed stream -----------------------------------------------------------------------
 	do(idxLine(buildIndex(bigBase+10, []sym{{0, 0}, {1, 0}, {0, 1}, {2, 0}})), "", true)
 	for _, ct := range []int64{-1 << 31, -1<<31 + 1, 1<<31 - 1, 0, -1} {
